@@ -67,7 +67,7 @@ CHECKS = {
 ALL = ["C%02d" % i for i in range(1, 21)]
 props = {json.loads(l)["id"]: json.loads(l) for l in open("/verif/properties.jsonl")}
 repo_commits = subprocess.run(["git", "-C", "/repo", "log", "--format=%h %s"], capture_output=True, text=True).stdout.strip().split("\n")
-hooks = [c.split()[0] for c in repo_commits if "verif hooks" in c]
+hooks = [c.split()[0] for c in repo_commits if "verif hooks" in c or " verif: " in c]
 man = {
  "version": 1,
  "setup_cmd": "cd /verif && GOFLAGS=-mod=mod GOPROXY=off go build -tags verif -o bin/vcheck ./cmd/vcheck",
